@@ -23,11 +23,11 @@ import (
 const vListVersion = 10
 
 type vServer struct {
-	n       int
-	hist    []watch.Event
-	calls   chan int      // resourceVersion of every Watch call
-	budget  chan struct{} // remaining faults
-	served  chan int      // highest version handed to a stream reader so far
+	n      int
+	hist   []watch.Event
+	calls  chan int      // resourceVersion of every Watch call
+	budget chan struct{} // remaining faults
+	served chan int      // highest version handed to a stream reader so far
 }
 
 func newServer(n, faults int) *vServer {
@@ -141,10 +141,10 @@ func (c *vRecCache) update(ev Event) ([]Event, error) {
 }
 func (c *vRecCache) refilter([]metav1.Object, filter.Filter) ([]Event, error) { return nil, nil }
 func (c *vRecCache) Done() <-chan struct{}                                    { return c.done }
-func (c *vRecCache) Error() error                                            { return nil }
-func (c *vRecCache) List() ([]metav1.Object, error)                          { return nil, nil }
-func (c *vRecCache) Get(string, string) (metav1.Object, error)               { return nil, nil }
-func (c *vRecCache) GetObject(metav1.Object) (metav1.Object, error)          { return nil, nil }
+func (c *vRecCache) Error() error                                             { return nil }
+func (c *vRecCache) List() ([]metav1.Object, error)                           { return nil, nil }
+func (c *vRecCache) Get(string, string) (metav1.Object, error)                { return nil, nil }
+func (c *vRecCache) GetObject(metav1.Object) (metav1.Object, error)           { return nil, nil }
 
 func VerifC04_Watch() {
 	n := zzverif.NondetInt("n", 1, zzverif.Param("N", 2))
